@@ -91,6 +91,8 @@ def table(ctx):
     out = []
     for kind, dt in (("Implicit", C("Implicit", S("en"))), ("Explicit", C("Explicit", S("de")))):
         for sup in (False, True):
+            if kind == "Implicit" and sup:
+                continue   # infeasible: check_locales_inner never builds Implicit under suppress_key_warnings (C03.R1 / checklocales decide that)
             for lk, dk in SHAPES:
                 res, log = run(ctx, dt, sup, lk, dk)
                 out.append(("default_to=%s suppress=%s locale keys %s default keys %s" % (kind, sup, list(lk), list(dk)), res, log, expected(dt, sup, lk, dk)))
